@@ -60,6 +60,25 @@ violated instance.  Clause numbers refer to DESIGN.md section 5 "C10".
  even-odd rule for duplicates
   D1-duplicates-cancel-in-pairs   the erase that follows an adjacent_find over the sorted segments / the ring stack removes
                                   exactly [it, it + 2)
+ completeness inside the property's quantifier domain ("up to 100 touching points"; the number comes from the property
+ record, not from the source)
+  P4-valid-input-within-limits-is-assembled   with no problem detected (intersection count 0, every rejecting step returned
+                                  true, segments left) and n <= 100 split locations create_rings cannot reach a false
+                                  return; comparisons of split_locations.size() with constants are decided over all
+                                  order types of {n, constants}.  (The give-up path itself is silent -- no counter, no
+                                  reporter call -- in the unchanged tree as well; that is the library's documented
+                                  behaviour for n > 100, outside the property's domain, and therefore not a P3 instance.)
+ ring orientation bookkeeping
+  A1-ring-sum-matches-segment-directions   ProtoRing's sum is the sum of det() of its segments in their CURRENT direction:
+                                  wherever a segment's det() is added to a ring (add_segment_back, the constructor, a ring
+                                  emplaced in a container) the same segment is not reversed afterwards, and a ring method
+                                  that reverses its own segments negates the sum on every path
+ segments
+  G5-segment-end-points-differ    a segment is stored in the segment vector only under guards that decide (for all
+                                  coordinate values AND node ids, by SymExec) that the two end LOCATIONS differ -- the
+                                  premise of G2/G3/G4 (strict normal form) and of "at least four points per ring";
+                                  conversely no decided guard keeps a segment between two DIFFERENT locations from
+                                  being stored
 
 NOT decided (the bulk of the property): validity, orientation, nesting, even-odd coverage, permutation invariance; the
 tie-break of NodeRefSegment::operator< (slopes: products of differences); calculate_intersection; the ring-joining
@@ -69,7 +88,7 @@ ring pointers although the stack is sorted by y (stack cancellation justified ge
 """
 from .. import sorted as S
 from ..c10_util import (CallIndex, Facts, Obj, Poly, SymExec, UNK, Unsupported, callee_bodies, calls_of, edge_filter, facts_for_result, guard_set, is_noreturn,
-                        lazy_env, live, local_decl, pretty, product_worlds, reach_under, return_may_be_true, stat_fields, symbolic)
+                        lazy_env, live, local_decl, pretty, product_worlds, reach_under, return_may_be_true, stat_fields, symbolic, tv)
 from ..flow import describe_path, guards_of, path_search
 from ..ordertype import INT32, Inexact, worlds
 
@@ -328,6 +347,7 @@ def pipeline_rules(M, R):
             R.bad('P2-rejection-propagates', '%s#intersections-found-rejects' % fn.q, fn.site, 'the intersection sweep is never run by %s' % BA)
     # ---- P2: bool helpers between create_rings and the function that found the problem
     rej = _rejecting_functions(M, R, extra_seeds)
+    M.rej, M.sweep_fns = rej, sweep_fns
     for g in sorted(rej.values(), key=lambda f: f.q):
         for (f, c) in M.idx.callers(g):
             if not f.q.startswith(BA + '::') or not live(f, c['id']):
@@ -1382,6 +1402,260 @@ def _reach_with_fields(fn, call_id, truth, is_target, fields):
     return reach_under(fn, call_id, truth, is_target, extra)
 
 
+# ====================================================================================================== limits, ring sum, end points
+
+#: the property's quantifier domain: "up to 100 touching points" (properties.jsonl, C10) -- NOT read from the source
+PROPERTY_MAX_TOUCHING_POINTS = 100
+
+
+def limit_rule(M, R):
+    """P4: with no problem detected (no intersection, every rejecting step succeeded, segments left) and at most
+    PROPERTY_MAX_TOUCHING_POINTS split locations, create_rings cannot reach `return false`.  Comparisons of the number
+    of split locations with constants are decided over all order types of {n, constants}."""
+    from ..ordertype import UINT64
+    split_q = BA + '::' + M.split_field
+    for fn in M.create_rings:
+        key = '%s#valid-input-with-up-to-%d-touching-points-is-not-rejected' % (fn.q, PROPERTY_MAX_TOUCHING_POINTS)
+        facts = Facts()
+        rej_usrs = set(getattr(M, 'rej', {}))
+        sweep_usrs = {g.usr for g in getattr(M, 'sweep_fns', [])}
+        for c in calls_of(fn):
+            if not live(fn, c['id']):
+                continue
+            if c.get('u') in rej_usrs:
+                facts.merge(facts_for_result(fn, c['id'], True)[0])
+            elif c.get('u') in sweep_usrs:
+                facts.merge(facts_for_result(fn, c['id'], False)[0])
+            elif c.get('q', '').rsplit('::', 1)[-1] == 'empty' and c.get('recv') is not None and base_type(fn.nodes[fn.strip(c['recv'])].get('t', '')) == SL:
+                facts.nodes[c['id']] = False
+
+        def term(nid):
+            n = fn.sn(nid)
+            hops = 0
+            while n is not None and n.get('k') == 'cast' and hops < 3:
+                n = fn.sn(n.get('sub'))
+                hops += 1
+            if n is None:
+                return None
+            if n.get('k') == 'call' and n.get('q', '').rsplit('::', 1)[-1] == 'size' and n.get('recv') is not None and \
+                    (fn.sn(n['recv']) or {}).get('q') == split_q and fn.is_this_member(n['recv']):
+                return 'n'
+            v = fn.const_value(nid)
+            return v
+        consts = {0, PROPERTY_MAX_TOUCHING_POINTS}
+        for n in fn.all_nodes():
+            if n.get('k') == 'binop' and n.get('op') in ('<', '<=', '>', '>=', '==', '!='):
+                a, b = term(n['lhs']), term(n['rhs'])
+                if 'n' in (a, b):
+                    other = b if a == 'n' else a
+                    if isinstance(other, int):
+                        consts.add(other)
+        bad = None
+        for w in worlds({'n': UINT64}, consts):
+            if not w.le('n', PROPERTY_MAX_TOUCHING_POINTS):
+                continue
+
+            def hook(f, nid, w=w):
+                n = f.sn(nid)
+                if n is None:
+                    return None
+                if n.get('k') == 'binop' and n.get('op') in ('<', '<=', '>', '>=', '==', '!='):
+                    a, b = term(n['lhs']), term(n['rhs'])
+                    if a is not None and b is not None and 'n' in (a, b):
+                        try:
+                            return w.cmp(n['op'], a, b)
+                        except Inexact:
+                            return None
+                if n.get('k') == 'call' and n.get('q', '').rsplit('::', 1)[-1] == 'empty' and n.get('recv') is not None and \
+                        (f.sn(n['recv']) or {}).get('q') == split_q and f.is_this_member(n['recv']):
+                    return w.eq('n', 0)
+                return None
+            fw = facts.copy()
+            fw.hook = hook
+
+            def is_false_return(e):
+                if isinstance(e, tuple):
+                    return False
+                n = fn.nodes.get(e)
+                return n is not None and n.get('k') == 'return' and 'sub' in n and tv(fn, n['sub'], fw) is False
+            path = path_search(fn, fn.entry, is_false_return, lambda e: is_noreturn(fn, e), edge_filter(fn, fw), from_block_start=True)
+            if path is not None:
+                bad = (w, path)
+                break
+        R.check(bad is None, 'P4-valid-input-within-limits-is-assembled', key, fn.site,
+                'create_rings returns false although no problem was detected (no intersection, no open ring, ring building succeeded) '
+                'and the number of split locations is within the property\'s domain: %s; path %s' % (
+                    ('n = %s' % bad[0].values.get('n')) if bad else '', describe_path(fn, bad[1]) if bad else ''))
+
+
+PR = NS + 'ProtoRing'
+
+
+def _sum_accumulators(M):
+    """({usr: (Fn, parameter index)} functions that add det() of their segment parameter to the ring sum, name of the sum field)."""
+    fb = M.fb
+    acc, sum_fields = {}, set()
+    for f in M.fns:
+        if f.cls != PR:
+            continue
+        for n in f.all_nodes():
+            if n.get('k') == 'assign' and n.get('op') == '+=' and f.is_this_member(n['lhs']):
+                dets = [f.nodes[x] for x in f.subtree(n['rhs']) if f.nodes[x].get('k') == 'call' and f.nodes[x].get('q') == NRS + '::det']
+                for d in dets:
+                    r = f.root_var(d.get('recv'))
+                    pi = [i for i, p in enumerate(f.params) if r is not None and r[0] == 'var' and p['d'] == r[1]]
+                    if pi:
+                        acc[f.usr] = (f, pi[0])
+                        sum_fields.add(f.sn(n['lhs'])['q'])
+    changed = True
+    while changed:
+        changed = False
+        for f in M.fns:
+            if f.usr in acc or f.cls != PR:
+                continue
+            for c in calls_of(f):
+                if c.get('u') in acc and c.get('recv') is not None and (f.sn(c['recv']) or {}).get('k') == 'this':
+                    a = c.get('args', [])[acc[c['u']][1]]
+                    r = f.root_var(a) if a is not None else None
+                    pi = [i for i, p in enumerate(f.params) if r is not None and r[0] == 'var' and p['d'] == r[1]]
+                    if pi and (f.sn(a) or {}).get('k') == 'var':
+                        acc[f.usr] = (f, pi[0])
+                        changed = True
+    return acc, sum_fields
+
+
+def ring_sum_rules(M, R):
+    """A1: ProtoRing's sum is the sum of det() of its segments IN THEIR CURRENT DIRECTION: a segment is not reversed after
+    its det() was added, and a method that reverses the ring's own segments negates the sum."""
+    fb = M.fb
+    acc, sum_fields = _sum_accumulators(M)
+    if not acc or len(sum_fields) != 1:
+        R.broken('A1: cannot identify the method of %s that accumulates det() of a segment (found %d, sum fields %s)' % (PR, len(acc), sorted(sum_fields)))
+        return
+    sum_q = list(sum_fields)[0]
+    for f in M.fns:
+        if f.is_lambda:
+            continue
+        adds = []
+        for c in list(calls_of(f)) + [n for n in f.all_nodes() if n.get('k') == 'construct' and 'q' in n]:
+            if c.get('u') in acc and live(f, c['id']):
+                args = c.get('args', [])
+                i = acc[c['u']][1]
+                if i < len(args) and args[i] is not None:
+                    adds.append((c, args[i]))
+        # constructing a ring in place (emplace_back on a container of rings) runs the accumulating constructor
+        ctor_acc = [(u, i) for u, (g, i) in acc.items() if g.kind == 'ctor']
+        for c in calls_of(f):
+            if ctor_acc and c.get('q', '').rsplit('::', 1)[-1] in ('emplace_back', 'emplace_front', 'emplace') and c.get('recv') is not None and \
+                    base_type(S.element_type(S.strip_cvref(f.nodes[f.strip(c['recv'])].get('t', ''))) or '') == PR and live(f, c['id']):
+                args = [a for a in c.get('args', []) if a is not None]
+                i = ctor_acc[0][1]
+                if i < len(args):
+                    adds.append((c, args[i]))
+        revs = [n for n in calls_of(f, NRS + '::reverse') if n.get('recv') is not None and live(f, n['id'])]
+        if adds:
+            key = '%s#segment-not-reversed-after-its-det-was-added' % (fkey(f) if f.cls != PR else f.q)
+            why, site = None, f.site
+            for (c, a) in adds:
+                ta, root = f.expr(f.strip(a)), f.root_var(a)
+                for r in revs:
+                    if f.expr(f.strip(r['recv'])) != ta:
+                        continue
+
+                    def rebinds(e, root=root):
+                        if isinstance(e, tuple) or root is None:
+                            return False
+                        n = f.nodes.get(e, {})
+                        if n.get('k') == 'decl':
+                            return any(v['d'] == root[1] for v in n['vars'])
+                        if n.get('k') == 'assign' or (n.get('k') == 'call' and n.get('op') in ('=', '++', '--')) or (n.get('k') == 'unop' and n.get('op') in ('++', '--')):
+                            t = n.get('lhs', n.get('recv', n.get('sub')))
+                            return t is not None and f.root_var(t) == root and (f.sn(t) or {}).get('k') == 'var'
+                        return False
+                    w = path_search(f, c['id'], lambda e, r=r: e == r['id'], rebinds)
+                    if w is not None and why is None:
+                        why, site = ('`%s` is reversed at %s after its det() was added to the ring sum by `%s`: the sum (orientation, '
+                                     'candidate areas) gets the contribution with the wrong sign' % (ta, f.loc(r['id']), f.expr(c['id'])[:50])), f.loc(c['id'])
+            R.check(why is None, 'A1-ring-sum-matches-segment-directions', key, site, why or '')
+    # methods of the ring that reverse its OWN segments
+    for f in M.fns:
+        if f.cls != PR or f.is_lambda:
+            continue
+        own_rev = False
+        for g in [f] + fb.lambdas_in(f):
+            for r in calls_of(g, NRS + '::reverse'):
+                if g is f:
+                    o = _origin(f, r['recv'])
+                    if o is not None and o[0] == 'field' and f.is_this_member(o[2]['id']):
+                        own_rev = True
+                else:
+                    # lambda applied by an algorithm to this->segments
+                    for c in calls_of(f):
+                        if c.get('q', '').startswith('std::') and any(fb.lambda_fn(f, f.nodes[x]) is g for a in c.get('args', []) if a is not None
+                                                                      for x in f.subtree(a) if f.nodes[x].get('k') == 'lambda'):
+                            a0 = c.get('args', [None])[0]
+                            n0 = f.sn(a0) if a0 is not None else None
+                            if n0 is not None and n0.get('recv') is not None and f.is_this_member(n0['recv']):
+                                own_rev = True
+        if not own_rev:
+            continue
+        negs = [n['id'] for n in f.all_nodes() if n.get('k') == 'assign' and n.get('op') == '=' and (f.sn(n['lhs']) or {}).get('q') == sum_q and f.is_this_member(n['lhs'])
+                and (f.sn(n['rhs']) or {}).get('k') == 'unop' and f.sn(n['rhs'])['op'] == '-' and (f.sn(f.sn(n['rhs'])['sub']) or {}).get('q') == sum_q]
+        w = path_search(f, f.entry, lambda e: isinstance(e, tuple) and e[0] == 'exit', lambda e: e in negs or is_noreturn(f, e), from_block_start=True) if negs else ['-']
+        R.check(w is None, 'A1-ring-sum-matches-segment-directions', '%s#reversing-the-own-segments-negates-the-sum' % f.q, f.site,
+                '%s reverses the segments of the ring but does not negate %s on every path' % (f.q, sum_q.rsplit('::', 1)[-1]))
+
+
+def end_points_rule(M, R, G):
+    """G5: a segment is stored only under a test that decides that the LOCATIONS of its two end points differ."""
+    fb = M.fb
+    sites = list(M.seg_proto.mutators)
+    if not sites:
+        R.broken('G5: no insertion into %s::%s found' % (SL, M.seg_field))
+        return
+    for (fn, n, nm) in sites:
+        key = '%s#segment-stored-only-between-different-locations' % fn.q
+        ends = [a for a in n.get('args', []) if a is not None and base_type(fn.nodes[a].get('t', '')) == 'osmium::NodeRef']
+        if len(ends) != 2 or any((fn.sn(a) or {}).get('k') != 'var' for a in ends):
+            R.broken('%s: cannot see the two NodeRef end points of the stored segment' % key)
+            continue
+        na, nb = G.noderef('a'), G.noderef('b')
+        (ax, ay), (bx, by) = G.noderef_syms(G.se0, na), G.noderef_syms(G.se0, nb)
+        refs = [p.symbol() for p in (na.f.get('m_ref'), nb.f.get('m_ref')) if isinstance(p, Poly)] if isinstance(na, Obj) else []
+        groups = [[ax, bx], [ay, by]] + ([refs] if len(refs) == 2 else [])
+        gs = [(c, sense) for (c, sense, _b) in guards_of(fn, n['id'])
+              if not ((fn.sn(c) or {}).get('k') == 'binop' and fn.sn(c)['op'] in ('&&', '||')) and not ((fn.sn(c) or {}).get('k') == 'unop' and fn.sn(c)['op'] == '!')]
+        bad = dropped = None
+        for w in product_worlds(groups, INT32):
+            same = w.eq(ax, bx) and w.eq(ay, by)
+            se = SymExec(fb, w)
+            env = lazy_env(se, fn, {'this': UNK, fn.sn(ends[0])['d']: na, fn.sn(ends[1])['d']: nb})
+            excluded = None
+            for (c, sense) in gs:
+                try:
+                    v = se.ev(fn, c, env)
+                except Unsupported:
+                    v = None
+                if isinstance(v, Poly):
+                    sg = se.sign(v)
+                    v = None if sg is None else (sg != 0)
+                if v in (True, False) and v != sense:
+                    excluded = c
+                    break
+            if same and excluded is None and bad is None:
+                bad = w
+            if not same and excluded is not None and dropped is None:
+                dropped = (w, excluded)
+        R.check(bad is None, 'G5-segment-end-points-differ', key, fn.loc(n['id']),
+                'a segment can be stored although both end points have the same location (the guards do not decide that the LOCATIONS '
+                'differ; comparing NodeRefs compares ids): zero-length segments become bogus 2-point rings%s' % (
+                    '; order type [%s], e.g. %s' % (pretty(bad.describe()), pretty(bad.witness())) if bad else ''))
+        R.check(dropped is None, 'G5-segment-end-points-differ', '%s#segment-between-different-locations-is-stored' % fn.q, fn.loc(n['id']),
+                'a segment between two DIFFERENT locations is not stored because of `%s`: part of a valid ring is dropped%s' % (
+                    fn.expr(dropped[1])[:60] if dropped else '',
+                    '; order type [%s], e.g. %s' % (pretty(dropped[0].describe()), pretty(dropped[0].witness())) if dropped else ''))
+
+
 # ====================================================================================================== driver
 
 def all_rules(fb, R):
@@ -1397,11 +1671,14 @@ def all_rules(fb, R):
     output_rules(M, R)
     ring_role_rules(M, R)
     duplicate_pair_rule(M, R)
+    limit_rule(M, R)
+    ring_sum_rules(M, R)
     try:
         G = Geo(fb)
         normal_form_rule(M, R, G)
         two_segment_rules(M, R, G)
         ray_rule(M, R, G)
+        end_points_rule(M, R, G)
     except (Unsupported, Inexact) as e:
         R.broken('geometry rules: %s' % e)
 
@@ -1430,6 +1707,9 @@ def run(ctx):
     R.expect('R3-commit-only-on-success', 10)
     R.expect('R4-ring-roles-in-output', 2)
     R.expect('D1-duplicates-cancel-in-pairs', 2)
+    R.expect('P4-valid-input-within-limits-is-assembled', 1)
+    R.expect('A1-ring-sum-matches-segment-directions', 6)
+    R.expect('G5-segment-end-points-differ', 2)
 
 
 # ====================================================================================================== positive self-test
@@ -1460,4 +1740,5 @@ SELFTESTS = [(rule, 'c10_assembler.cpp', _selftest_all) for rule in (
     'P3-problem-counted-and-reported', 'S1-search-key-agrees-with-sort-key', 'S2-searched-after-sort', 'S3-sorted-storage-stays-sorted',
     'S4-nearest-ring-chosen', 'G1-segment-normal-form', 'G2-segment-order-primary-key', 'G3-sweep-prefilter-sound',
     'G4-ray-crossing-interval', 'R1-rings-added-only-after-success', 'R2-create-area-result', 'R3-commit-only-on-success',
-    'R4-ring-roles-in-output', 'D1-duplicates-cancel-in-pairs')]
+    'R4-ring-roles-in-output', 'D1-duplicates-cancel-in-pairs', 'P4-valid-input-within-limits-is-assembled',
+    'A1-ring-sum-matches-segment-directions', 'G5-segment-end-points-differ')]
